@@ -16,6 +16,26 @@ CLAIMED = {
          "corruption of 15 realistic frames plus random strings is validated by TLC (accepted => well-formed; malformed => UBXParseError; "
          "VALNONE checksum corruption => same attributes).",
          "3.6, 4/C05", "TLC fault-sequence model checking + replay of every reachable string into the code + TLC trace validation"),
+ "C06": ("TLC proves the clean-stream theorem on the reader machine (spec/UbxReader.tla) for all sequences of <=3/4 tokens with real "
+         "Fletcher/CRC-24Q framing; the real UBXReader is then run on every sequence of a 13-frame concrete library and on seeded long "
+         "interleavings of recorded/synthesised UBX, NMEA and RTCM3 frames with noise; TLC validates each run: delivered (raw, parsed) "
+         "= the frames the protocol parsers accept (direct calls), in order, and event-by-event conformance with the machine.",
+         "3.8, 4/C06", "TLA+ reader state machine + TLC trace validation of recorded reader runs against recipe-derived expectation"),
+ "C07": ("TLC explores the reader machine on EVERY stream over an 8-byte alphabet up to length 5/6 with nondeterministic parser verdicts "
+         "(NothingLeft, Slices, AppendOnly, termination) and shows the pinned zero-read defect as a counterexample; the real reader is run on "
+         "the same exhaustive stream set and on random garbage, every read()/readline()/item/handler event logged by a recording stream, and "
+         "TLC validates each run with the C07 monitor (in-order disjoint slices with preamble, nothing unread at end) and against the machine.",
+         "3.8, 4/C07", "TLC exhaustive model checking of the reader machine + TLC trace validation (monitor + event-by-event conformance)"),
+ "C09": ("Self-composition lemma Cut checked by TLC on all token streams x all cut positions; the real reader is run on S and on S[:k] for "
+         "every k for exhaustive small, clean and garbage streams; TLC judges prefix, normal end, no item beyond the cut, and delivery of "
+         "every accepted frame lying before the cut.", "3.8, 4/C09", "TLC self-composition lemma + TLC trace validation over every cut position"),
+ "C11": ("Lemmas Mask/Parsing checked by TLC on all token streams x 8 masks, InvMask on the byte-alphabet machine; the real reader is run "
+         "under all 8 masks x parsing flag on exhaustive small, clean and garbage streams and TLC checks items_F = filter(items_7).",
+         "3.8, 4/C11", "TLC self-composition lemma + TLC trace validation over all masks"),
+ "C12": ("Lemma Policy checked by TLC on all token streams; the real reader is run under IGNORE / LOG with handler / RAISE / LOG without "
+         "handler; TLC checks equal items, handler calls = rejected frames (family, order) on recipe streams, RAISE delivers the items "
+         "before the first rejection and raises the same exception (type and args).",
+         "3.8, 4/C12", "TLC self-composition lemma + TLC trace validation over error policies"),
 }
 checks = []
 for p in props:
